@@ -149,6 +149,12 @@ func dumpKeys(mgr *server.Manager, spec string) string {
 		d = dumpKeysOnce(mgr, spec)
 	}
 	if spec != "*" {
+		// "~@<deadline>" (deadline without value) is reported only when it persists: an expiry timer that fires between two
+		// commands deletes the value and then the deadline in two steps
+		for i := 0; i < 20 && strings.Contains(d, "#~@"); i++ {
+			time.Sleep(time.Millisecond)
+			d = dumpKeysOnce(mgr, spec)
+		}
 		return d
 	}
 	for i := 0; i < 10; i++ {
